@@ -340,6 +340,8 @@ def ground_truth(plan, stats):
     for f in plan["fields"]:
         if f.get("disc") and f["name"] in value and not isinstance(value[f["name"]], dict):
             stats["probe:discriminated_field_not_a_mapping"] += 1
+        if f["type"][0] == "xor" and f["name"] in G and not any(_item_fails(b, value[f["name"]]) for b in f["type"][1:]):
+            stats["probe:one_of_both_hold"] += 1       # (it fails because both conditions hold, not because neither does)
     for name, vx in (plan.get("conflict") or {}).items():
         # two spellings with different values: the item is rejected whatever the values are
         if name in value and tdsl.build_value(vx) != value[name]:
